@@ -56,6 +56,7 @@ class Ob:
 
     def __init__(self, d):
         self.name, self.kind, self.path, self.smt2, self.watch, self.meta = d["name"], d["kind"], d.get("path", 0), d["smt2"], d.get("watch", {}), d.get("meta", {})
+        self.smt2_relaxed = d.get("smt2_relaxed", "")
 
 
 def _finding_for(kf_prop, kind, text, sig=""):
@@ -132,6 +133,16 @@ def run_property(pid: str, tier: str, seed: int) -> int:
             job.update(timeout_s=3, only="z3", watch={})
         jobs.append(job)
     results = solve.solve_all(jobs) if jobs else []
+
+    # relaxed pass: an undecided obligation is re-asked with the hypotheses that stall the solvers (str.replace chains)
+    # removed; proving the goal from fewer hypotheses is sound, so this can only turn undecided into discharged.
+    relax = [(i, dict(jobs[i], smt2=ob.smt2_relaxed)) for i, ((unit, ob), r) in enumerate(zip(all_obs, results)) if ob.kind != "canary" and r["verdict"] not in ("sat", "unsat") and ob.smt2_relaxed]
+    if relax:
+        for (i, _), rr in zip(relax, solve.solve_all([j for _, j in relax])):
+            solver_s += rr["time_s"]
+            if rr["verdict"] == "unsat":
+                rr["backend"] += " (weaker hypothesis set: str.replace facts dropped)"
+                results[i] = rr
 
     # refutation pass (DESIGN 2.4): an undecided obligation is re-asked with the unit's size hints added (e.g. n = 5);
     # `sat` under an extra constraint is `sat` without it, so this can only turn undecided into refuted.
